@@ -260,6 +260,7 @@ func (cur *FieldMask) addPath(path string, curDesc *thrift_reflection.TypeDescri
 			all := cur.All()
 			ids := []int{}
 			empty := true
+			closed := false
 			// iter indexies...
 			for it.HasNext() {
 				tok := it.Next()
@@ -273,6 +274,7 @@ func (cur *FieldMask) addPath(path string, curDesc *thrift_reflection.TypeDescri
 					if empty {
 						return errPath(tok, "empty index set")
 					}
+					closed = true
 					break
 				}
 				empty = false
@@ -298,6 +300,9 @@ func (cur *FieldMask) addPath(path string, curDesc *thrift_reflection.TypeDescri
 
 				id := tok.val.Int()
 				ids = append(ids, id)
+			}
+			if !closed {
+				return errPath(stok, "index set isn't closed by ']'")
 			}
 
 			if all {
@@ -348,6 +353,7 @@ func (cur *FieldMask) addPath(path string, curDesc *thrift_reflection.TypeDescri
 			isInt := cur.typ == FtIntMap
 			isStr := cur.typ == FtStrMap
 			empty := true
+			closed := false
 			ids := []int{}
 			strs := []string{}
 			for it.HasNext() {
@@ -362,6 +368,7 @@ func (cur *FieldMask) addPath(path string, curDesc *thrift_reflection.TypeDescri
 					if empty {
 						return errPath(tok, "empty key set")
 					}
+					closed = true
 					break
 				}
 				empty = false
@@ -400,6 +407,9 @@ func (cur *FieldMask) addPath(path string, curDesc *thrift_reflection.TypeDescri
 				}
 			}
 
+			if !closed {
+				return errPath(stok, "key set isn't closed by '}'")
+			}
 			// println("all:", all, "ids:", ids, "strs:", strs, isInt, isStr)
 
 			if all {
